@@ -129,7 +129,7 @@ def run_pairs(ctx, tag, pairs, shard=40, search=True, timeout=900,
             break
         vals, errs = ctx.coq_eval(f"{tag}{stage}", cases, header=hdr,
                                   shard=shard,
-                                  timeout=timeout if stage == 0 else 150)
+                                  timeout=timeout if stage == 0 else 100)
         todo = []
         for n, v in zip(idxs, vals):
             p = pairs[n]
